@@ -730,7 +730,7 @@ func kraftSites(p *Program) []kraftSite {
 				if !isK || k != 1<<15 {
 					continue
 				}
-				if prm, ok := x.(*ssa.Parameter); ok {
+				if prm, ok := stripConv(x).(*ssa.Parameter); ok {
 					byParam[prm] = append(byParam[prm], bo)
 					continue
 				}
